@@ -8,12 +8,6 @@ pub fn run(cfg: &Cfg, log: &mut Log) {
     for rc in my_roots(cfg) {
         log.count("roots", 1);
         let class = ty_class(&rc.ty);
-        if model::layout::has_odd_unit(&rc.ty) {
-            // the padding rule is undefined for a unit that is not a power of
-            // two (known finding under C07): judged there only
-            log.count("roots_skipped_non_power_of_two_unit", 1);
-            continue;
-        }
         // hash recipe
         let (th, ah) = rc.root.hashes();
         let (mth, mah) = (model::hash::type_hash(&rc.ty), model::hash::align_hash(&rc.ty));
